@@ -507,6 +507,76 @@ func specOn(k int, store string) xstate.Spec {
 	}
 }
 
+// freedCapacity: "...so that the freed capacity is available to the remaining instances". k instances saturate the
+// allocate schema (limit 40) until their quotas settle; one goes silent and is cleaned up; the survivors go on sending
+// the very same overloaded reports (settled instances repeat themselves): within 40 more rounds the survivors'
+// quotas together must have grown by what the dead instance held (up to the minimum reserve the allocator keeps).
+func freedCapacity(c *ev.Check) {
+	overloaded := func(s *sys, i int) error {
+		in := &s.inst[i]
+		_ = s.rig.L.Heartbeat(in.name)
+		rep := limrig.Report(up, in.name, "a", proxyv1alpha1.MaxRequestsInflight, proxyv1alpha1.GlobalAllocateLimit, in.quota, 0, in.quota, 150)
+		rep.Name = up + "." + in.name
+		if in.quota == 0 {
+			rep.Spec.LimitItemConfigurations[0].LimitItemDetail = proxyv1alpha1.LimitItemDetail{}
+		}
+		ans, err := s.rig.L.UpdateRateLimitConditionStatus(up, rep)
+		if err != nil {
+			return err
+		}
+		for _, it := range ans.Spec.LimitItemConfigurations {
+			if it.Name == "a" && it.MaxRequestsInflight != nil {
+				in.quota = it.MaxRequestsInflight.Max
+			}
+		}
+		return nil
+	}
+	for _, store := range []string{"local", "k8s-writeback"} {
+		for _, k := range []int{2, 3, 4} {
+			for dead := 0; dead < k; dead++ {
+				s := newSysOn(k, store)
+				sum := func(skip int) (t int32) {
+					for i := range s.inst {
+						if i != skip {
+							t += s.inst[i].quota
+						}
+					}
+					return
+				}
+				for round := 0; round < 60; round++ {
+					for i := 0; i < k; i++ {
+						if err := overloaded(s, i); err != nil {
+							c.EngineError("freed-capacity: report failed: " + err.Error())
+							return
+						}
+					}
+				}
+				held, before := s.inst[dead].quota, sum(dead)
+				s.rig.H.SetHeartbeat(s.inst[dead].name, vtime.Now().Add(-time.Hour))
+				s.rig.H.CleanupTimeoutClient()
+				s.rig.H.CleanupUnknownCondition()
+				for round := 0; round < 40; round++ {
+					for i := 0; i < k; i++ {
+						if i != dead {
+							if err := overloaded(s, i); err != nil {
+								c.EngineError("freed-capacity: report failed: " + err.Error())
+								return
+							}
+						}
+					}
+				}
+				after := sum(dead)
+				c.Add("freed_capacity_scenarios", 1)
+				c.Outcome("freed_capacity", fmt.Sprintf("%s k=%d dead held %d survivors %d->%d", store, k, held, before, after))
+				if held > 1 && after <= before {
+					c.Violation("freed-capacity-not-available", fmt.Sprintf("%d saturated instances on a limit of 40 (%s store), quotas settled; instance %d (quota %d) went silent and both cleanup passes ran; after 40 more rounds of overloaded reports the %d survivors still hold %d together (before: %d) - the freed capacity never reached them", k, store, dead, held, k-1, after, before),
+						map[string]interface{}{"store": store, "instances": k, "dead": dead})
+				}
+			}
+		}
+	}
+}
+
 func (s *sys) cleanedBoth(string) bool { return false }
 
 // ------------------------------------------------------------------ engine A: the cleanup goroutine vs requests
@@ -632,6 +702,7 @@ func main() {
 	tasks = append(tasks, xstate.Tasks(c, specIDs("long"), c.Pick(5, 6), 15)...)
 	tasks = append(tasks, xstate.Tasks(c, specStray(), c.Pick(5, 6), 17)...)
 	tasks = append(tasks, ev.Task{Name: "heartbeat-timings", Run: func() { heartbeatTimings(c) }})
+	tasks = append(tasks, ev.Task{Name: "freed-capacity", Run: func() { freedCapacity(c) }})
 	tasks = append(tasks, xstate.Tasks(c, specStrategyEdit(), c.Pick(5, 6), 16)...)
 	bounds := []int{0, 1, 2}
 	if c.Thorough() {
